@@ -28,10 +28,12 @@ const (
 	kCloneStash
 	kHostDirect
 	kInfix
+	kIterBreak
+	kHandlerLookup
 	nKinds
 )
 
-var kindNames = [...]string{"direct(2 params)", "ignored-slash", "redirect", "404", "405", "OPTIONS", "Lookup+Close", "Lookup+Clone", "handler-CloneWith", "handler-Clone-stash", "hostname-direct", "infix-catch-all"}
+var kindNames = [...]string{"direct(2 params)", "ignored-slash", "redirect", "404", "405", "OPTIONS", "Lookup+Close", "Lookup+Clone", "handler-CloneWith", "handler-Clone-stash", "hostname-direct", "infix-catch-all", "iterators-left-early", "handler-Lookup-inside"}
 
 // world is one router plus the bookkeeping of one execution.
 type world struct {
@@ -236,6 +238,27 @@ func newWorld(withHost bool) *world {
 		w.stashClone(c, c.Clone())
 		w.respond(c)
 	}))
+	// the handler looks another request up while its own context is live, then re-reads its own
+	must(f.Handle("GET", "/hl/{a}", func(c fox.Context) {
+		w.observe(c, "/hl/{a}", fox.RouteHandler, []string{"a"}, true)
+		outer := w.cur
+		inner := &reqInfo{tok: outer.tok + "i", kind: outer.kind}
+		w.cur = inner
+		rt, cc, _ := w.f.Lookup(fx.WrapRW(fx.NewRW()), w.req("GET", "", "/u/"+inner.tok+"a/"+inner.tok+"b"))
+		if rt == nil || cc == nil {
+			w.bad("inner Lookup found nothing")
+		} else {
+			w.observe(cc, "/u/{a}/{b}", fox.RouteHandler, []string{"a", "b"}, true)
+			w.cur = outer
+			w.observe(c, "/hl/{a}", fox.RouteHandler, []string{"a"}, true)
+			w.cur = inner
+			w.observe(cc, "/u/{a}/{b}", fox.RouteHandler, []string{"a", "b"}, true)
+			cc.Close()
+		}
+		w.cur = outer
+		w.observe(c, "/hl/{a}", fox.RouteHandler, []string{"a"}, true)
+		w.respond(c)
+	}))
 	if withHost {
 		// a hostname route switches the GET tree to hostname mode (different reset path in lookup)
 		must(f.Handle("GET", "{h}.host/x/{a}", func(c fox.Context) {
@@ -288,6 +311,39 @@ func (w *world) issue(kind int) {
 		w.f.ServeHTTP(rw, w.req("GET", tok+"a.host", "/x/"+tok+"b"))
 	case kInfix:
 		w.f.ServeHTTP(rw, w.req("GET", "", "/in/"+tok+"a/end/"+tok+"b"))
+	case kHandlerLookup:
+		w.f.ServeHTTP(rw, w.req("GET", "", "/hl/"+tok+"a"))
+	case kIterBreak:
+		// every iterator consumed completely once and left at its first element once
+		it := w.f.Iter()
+		for _, full := range []bool{true, false} {
+			for range it.Methods() {
+				if !full {
+					break
+				}
+			}
+			for range it.All() {
+				if !full {
+					break
+				}
+			}
+			for range it.Prefix(it.Methods(), "/u") {
+				if !full {
+					break
+				}
+			}
+			for range it.Routes(it.Methods(), "/u/{a}/{b}") {
+				if !full {
+					break
+				}
+			}
+			for range it.Reverse(it.Methods(), "", "/u/"+tok+"a/"+tok+"b") {
+				if !full {
+					break
+				}
+			}
+		}
+		w.cur.observed = true
 	case kLookupClose, kLookupClone:
 		frw := fx.WrapRW(rw)
 		frw.Header().Set("X-Mine", tok)
@@ -310,7 +366,7 @@ func (w *world) issue(kind int) {
 	if wantObserved && !w.cur.observed {
 		w.bad("no handler observed the request (status %d)", rw.Code)
 	}
-	if kind != kLookupClose && kind != kLookupClone && kind != kRedirect {
+	if kind != kLookupClose && kind != kLookupClone && kind != kRedirect && kind != kIterBreak {
 		n := len(tok)
 		if rw.Code != 200+n || len(rw.Body) != n || rw.H.Get("X-Resp") != tok {
 			w.bad("response status=%d body=%d X-Resp=%q, want %d/%d/%q", rw.Code, len(rw.Body), rw.H.Get("X-Resp"), 200+n, n, tok)
@@ -536,7 +592,7 @@ func init() {
 	mc.Register(&mc.Check{
 		ID:    "C12",
 		Level: "model_checking",
-		Rule: "every sequence up to a length of requests from a 12-kind alphabet (direct, ignored slash, redirect, 404, 405, OPTIONS, manual Lookup(+Clone), CloneWith, Clone, hostname, infix catch-all), with an optional tree replacement before each request, x EVERY answer of the context pool at every Pool.Get (any of the pooled contexts or a fresh one: data choice points of the controlled scheduler); every request carries a unique token in every observable field and every Context getter is checked inside every handler; stashed clones are re-read after every later request; " +
+		Rule: "every sequence up to a length of requests from a 14-kind alphabet (direct, ignored slash, redirect, 404, 405, OPTIONS, manual Lookup(+Clone), CloneWith, Clone, hostname, infix catch-all, every iterator consumed fully and left at its first element, a handler doing a Lookup for another request), with an optional tree replacement before each request, x EVERY answer of the context pool at every Pool.Get (any of the pooled contexts or a fresh one: data choice points of the controlled scheduler); every request carries a unique token in every observable field and every Context getter is checked inside every handler; stashed clones are re-read after every later request; " +
 			"plus two-thread schedules; distinct_nontrivial = distinct (sequence, outcome) classes",
 		Assumptions: []string{
 			"sync.Pool may return any previously Put object or a fresh one: the shim makes that choice explicit and the explorer enumerates it",
@@ -549,11 +605,11 @@ func init() {
 				if c.Quick() {
 					seqs = sequences(2, kinds, true)
 					// length 3 over the kinds that leave most state behind
-					seqs = dedupSeqs(append(seqs, sequences(3, []int{kIgnoreSlash, kNotFound, kLookupClone, kCloneStash, kDirect}, false)...))
+					seqs = dedupSeqs(append(seqs, sequences(3, []int{kIgnoreSlash, kNotFound, kLookupClone, kCloneStash, kDirect, kIterBreak, kHandlerLookup}, false)...))
 				} else {
 					seqs = sequences(maxLen, kinds, true)
 				}
-				r.Bounds["sequences"] = fmt.Sprintf("%d sequences (12 kinds; quick: all of length<=2 with tree replacement + length 3 over 5 kinds; thorough: all of length<=3 with tree replacement), unbounded exploration of pool answers", len(seqs))
+				r.Bounds["sequences"] = fmt.Sprintf("%d sequences (14 kinds; quick: all of length<=2 with tree replacement + length 3 over 7 kinds; thorough: all of length<=3 with tree replacement), unbounded exploration of pool answers", len(seqs))
 				for i, s := range seqs {
 					if !c.Mine(i) {
 						continue
